@@ -77,6 +77,27 @@ func (j *textJudge) judge(b ref.Bits, only string) {
 				return string(out[6:])
 			}})
 	}
+	// producers that hand out a freshly returned slice: the caller owns it and may
+	// overwrite it; that must not disturb any later output (no aliasing of library storage)
+	scribble := func(b []byte) string {
+		s := string(b)
+		for i := range b {
+			b[i] = '#'
+		}
+		return s
+	}
+	prods = append(prods,
+		prod{"MarshalText+overwrite", "default", func() string {
+			t, err := d.MarshalText()
+			if err != nil {
+				panic("MarshalText error: " + err.Error())
+			}
+			return scribble(t)
+		}},
+		prod{"Append(nil,g,-1)+overwrite", "g", func() string { return scribble(decimal128.Append(nil, d, 'g', -1)) }},
+		prod{"Decimal.Append(nil,v)+overwrite", "default", func() string { return scribble(d.Append(nil, "v")) }},
+		prod{"String-after-overwrite", "default", func() string { return d.String() }},
+	)
 	var defaultText string
 	haveDefault := false
 	for _, p := range prods {
